@@ -810,7 +810,7 @@ fn g_nested(cap: usize) {
     while j < 3 {
         let r = unsafe { PH[j][PH_REDUCE] };
         chk!(1, r.n == 1, "every accepted action - also one dispatched from inside a callback - enters the reduce phase exactly once");
-        chk!(2, r.act == exp[j], "real-time order: an action whose dispatch returned before another dispatch began is reduced first, also when the later one comes from a middleware on the reducer thread");
+        chk!(2, r.n == 1 && r.act == exp[j], "real-time order: an action whose dispatch returned before another dispatch began is reduced first, also when the later one comes from a middleware on the reducer thread");
         chk!(1, r.st == prev, "each action starts from the state left by the previously reduced action");
         chk!(7, unsafe { PH[j][PH_EFFECT].n } == 1 && unsafe { PH[j][PH_EFFECT].at } > r.at && (j == 0 || r.at > unsafe { PH[j - 1][PH_EFFECT].at }), "one action at a time: an action dispatched during a phase is processed after the current one is finished");
         prev = unsafe { SUM_OUT[j] };
